@@ -440,8 +440,9 @@ impl Server {
         // wait until it accepts
         let t0 = Instant::now();
         loop {
-            if let Ok((mut s, _)) = varlink::varlink_connect(address) {
-                let _ = s.shutdown();
+            // (std sockets, not the library's client: the server's readiness must not depend on the client code under test)
+            if let Ok(s) = AnyStream::connect(address) {
+                s.shutdown_write();
                 break;
             }
             if t0.elapsed() > Duration::from_secs(10) {
